@@ -158,6 +158,8 @@ type rreq struct {
 
 type bpeer struct {
 	resetArmed bool
+	stale      bool // closes when a second request arrives on the connection
+	served     int
 	rig        *relayRig
 	cuts       bool // this peer resets its connection as soon as the first bytes of a request arrive
 	end        *sim.End
@@ -196,6 +198,7 @@ type relayRig struct {
 	authRule    bool   // header_upstream replaces Authorization and passes the client's on as X-Client-Authorization
 	pathRule    bool   // a header_upstream rule copies {path} into a field
 	deadFirst   bool   // the first of two hosts refuses connections: every request is retried at the second
+	staleFirst  bool   // the first host closes a kept-alive connection when a second request arrives on it
 	cutFirst    bool   // the first of two hosts accepts, reads the beginning of the request and resets the connection
 
 	port       int
@@ -293,7 +296,7 @@ func setupRelayProxy(c *casket.Controller) error {
 					return nil, sim.ErrRefused
 				}
 				conn := rig.w.N.NewPeerConn("proxy-transport", net.IPv4(10, 7, 0, 1), 80)
-				p := &bpeer{rig: rig, end: conn.Srv, cuts: rig.cutFirst && rig.badHost(addr)}
+				p := &bpeer{rig: rig, end: conn.Srv, cuts: rig.cutFirst && rig.badHost(addr), stale: rig.staleFirst && rig.badHost(addr)}
 				if p.cuts {
 					// a small receive window: a large upload is still on its way when the backend dies
 					conn.Srv.SetWindow(2048)
@@ -442,6 +445,12 @@ func (p *bpeer) onData() {
 		}
 		rq.got = wr
 		p.cur = rq
+		p.served++
+		if p.stale && p.served > 1 {
+			r.c.Fault("backend-closes-a-reused-connection-without-answering")
+			p.out, p.after = nil, "close"
+			return
+		}
 		p.prepare(rq)
 	}
 }
@@ -587,6 +596,10 @@ func runRelayIn(c *sim.Ctl, mode string) {
 			r.deadFirst = true
 		case 3:
 			r.cutFirst = true
+		case 4:
+			// the first host answers the first request of every connection and has lost interest
+			// when the proxy comes back on the same connection: it closes without a word
+			r.staleFirst = pick(60)
 		}
 		// (scripted backend faults mark hosts down for fail_timeout; with both hosts down
 		// innocent requests are legitimately refused, so the two fault families stay apart)
@@ -703,7 +716,7 @@ func runRelayIn(c *sim.Ctl, mode string) {
 	}
 	b.WriteString("\t}\n}\n")
 	text := b.String()
-	c.Params["block"] = fmt.Sprintf("base=%q without=%q transparent=%v keepalive0=%v up=%v down=%v faults=%v hosts=%d dead-first=%v cut-first=%v limit=%d", r.base, r.without, r.transparent, r.keepalive0, r.upRules, r.downRules, r.faults, r.hosts, r.deadFirst, r.cutFirst, r.limit)
+	c.Params["block"] = fmt.Sprintf("base=%q without=%q transparent=%v keepalive0=%v up=%v down=%v faults=%v hosts=%d dead-first=%v cut-first=%v stale-first=%v limit=%d", r.base, r.without, r.transparent, r.keepalive0, r.upRules, r.downRules, r.faults, r.hosts, r.deadFirst, r.cutFirst, r.staleFirst, r.limit)
 
 	n := 1 + st.Draw(4)
 	for i := 0; i < n; i++ {
@@ -884,6 +897,12 @@ func (r *relayRig) addReq(i int) {
 			q.hdrs = append(q.hdrs, [2]string{"Trailer", "not a token"})
 			q.unsendable, q.aborted = true, true
 			r.c.Fault("request-the-transport-refuses-to-send")
+		}
+		if bl > 0 && pick(20) {
+			// a request its sender declares safe to repeat: the transport may then send it again by
+			// itself after a dead connection - with its body, if it can get the body again
+			q.hdrs = append(q.hdrs, [2]string{"Idempotency-Key", fmt.Sprintf("k%d", i)})
+			r.c.Probe("request-with-idempotency-key-and-body")
 		}
 		if bl > 0 && pick(15) {
 			// the client announces it would wait for a 100 (it sends the body without waiting, as it may)
